@@ -10,7 +10,10 @@
         wrapped index/length): REQUIRES(b <= a) per site, discharged or propagated to callers;
         obligations over opaque values (other calls' results, Drain/slice-pointer fields) are
         counted as undecided, never reported
-Not decided: implicit bounds/range checks (counted, assumed infeasible under INV); termination.
+  RIDX1 the implicit checks of `s[a..b]`, `s[..b]`, `s[a..]`, split_at(k), rotate(k): a <= b <= len(s) with
+        symbolic lengths (s[..k] -> k, split_at pieces, [_; N] -> N), facts from guards, INV, inferred
+        postconditions (translate_range_bounds: start <= end <= len); opaque obligations undecided
+Not decided: single-element bounds checks (counted, infeasible under INV); termination.
 """
 from .. import common, effects, guards, mir, panics, shared
 from ..report import short_loc
@@ -58,6 +61,7 @@ def run(ctx, progs):
     ctx.rule("MOD1", "REQUIRES(divisor > 0 / N > 0) discharged before reaching a public entry")
     ctx.rule("ARITH1", "Add/Mul on caller-supplied values only at reviewed sites")
     ctx.rule("SUB1", "no usize subtraction underflows (a debug-build panic / release wrap): REQUIRES(b <= a) discharged")
+    ctx.rule("RIDX1", "implicit checks of range indexing / split_at / rotate: REQUIRES(a <= b <= len) with symbolic slice lengths, discharged or propagated")
     ctx.assumptions.append("INV (size <= N, N > 0 => start < N): preservation checked by INV1 under C04")
     ctx.assumptions.append("core's RangeBounds impls for RangeTo/RangeFull/RangeFrom behave as documented")
     ctx.rule("DBGASSERT1", "thorough tier, debug build: every debug assertion is proved unreachable from the public entries, except the "
@@ -72,6 +76,7 @@ def run(ctx, progs):
         from .. import subrule
 
         subrule.report(ctx, prog, cfg)
+        subrule.report(ctx, prog, cfg, "RIDX1", floor=25)
         ctx.floor("MOD1", "generator/propagation sites", eng.sites, 40, cfg)
         arith1(ctx, prog, cfg)
         implicit_counts(ctx, prog, cfg)
